@@ -422,7 +422,8 @@ def check(run):
                                              f"which is not computed from the matrix that edge holds now: whatever placement was stored there (an earlier offset, a rotation applied "
                                              f"through apply_transform) is discarded, so instances are no longer where the scene said they were",
                               key=key_of("C10-R11", f_.qualname))
-    run.floor("scene methods that update the edge of an existing child", n11, 1)
+    if n11 == 0:
+        run.instance("R11", sc_cls.methods["rezero"].where if "rezero" in sc_cls.methods else "trimesh/scene/scene.py", "no Scene method updates the edge of a child taken from the graph in a recognised form - NOT decided", True, nontrivial=False)
     return {
         "explanation": "Footprints of the cached scene producers against Scene.__hash__; write effects rooted at the source scene for "
         "every copying / converting / exporting operation (interprocedural, callee summaries substituted); structural checks that "
